@@ -26,9 +26,20 @@ theorem escLoop_length : ∀ s : List Byte, s.length ≤ (escLoop s).length := b
   | nil => simp [escLoop]
   | cons c s ih =>
     rw [escLoop]
-    repeat' split
-    all_goals simp only [List.length_cons, List.length_append, List.length_nil]
-    all_goals omega
+    by_cases hc : c = 0
+    · simp [hc]
+    simp only [hc, if_false]
+    by_cases hset : Nstd.Generated.Json.escSet.contains c = true
+    · simp only [hset, if_true]
+      cases hl : lookup c Nstd.Generated.Json.escTable with
+      | some t =>
+        obtain ⟨e, ht, _⟩ := esc_inverts hl
+        subst ht
+        simp only [List.length_cons, List.length_append, List.length_nil]; omega
+      | none =>
+        simp only [List.length_cons, List.length_append, List.length_nil]; omega
+    · have hset' : Nstd.Generated.Json.escSet.contains c = false := by simpa using hset
+      simp only [hset', Bool.false_eq_true, if_false, List.length_cons]; omega
 
 /-! ### first tokens -/
 
